@@ -317,6 +317,16 @@ class GroupIter:
                 if fv == ('+', 'op'):
                     return ('(%s.foldl (fun x y => x + y) %s)' % (v, init[0]), 'g')
                 raise Untranslatable('fold function')
+            if name == 'map' and t == 'kglist' and len(margs) == 1 and margs[0][0] == 'closure2' and len(margs[0][1]) == 2:
+                sc, pt = margs[0][1]
+                body = self.body(margs[0][2], dict(env, **{sc: ('sp.1', 'k'), pt: ('sp.2', 'g')}))
+                return ('(%s.map (fun sp => %s))' % (v, body), 'glist')
+            if name == 'map' and t == 'glist' and len(margs) == 1 and margs[0][0] == 'closure2' and len(margs[0][1]) == 1:
+                x = margs[0][1][0]
+                body = self.body(margs[0][2], dict(env, **{x: (x, 'g')}))
+                return ('(%s.map (fun %s => %s))' % (v, x, body), 'glist')
+            if name == 'sum' and t == 'glist' and not margs:
+                return ('%s.sum' % v, 'g')
             if name == 'fold' and t == 'kglist' and len(margs) == 2 and margs[1][0] == 'closure2' and len(margs[1][1]) == 3:
                 init = self.ev(margs[0], env)
                 acc, sc, pt = margs[1][1]
